@@ -5,6 +5,7 @@
   All values are unbounded integers; all streams are arbitrary bit lists.
 -/
 import VC2.Proofs.BitIO
+import VC2.Model.BitIOSeek
 set_option linter.unusedVariables false
 namespace VC2.Props.C20
 open VC2 VC2.Gen VC2.Model.BitIO VC2.Proofs.BitIO
@@ -239,5 +240,55 @@ example : encodeSint (-3) = [false, false, false, false, true, true] ∧
     signed_exp_golomb_length (-3) = 6 := by decide
 example : (({ all := [true, false, true, true], pos := 1, rem := some 2 } : Reader).readSint).toOption.map (·.1)
     = some (-2) := by decide
+
+/-! ### the writer with seeks (`Model/BitIOSeek.lean`, tied by the `ws` correspondence) -/
+section Seek
+open VC2.Model.BitIOSeek
+
+/-- after a successful `seek(bytes, bits)` the writer reports exactly that position -/
+theorem writer_tell_after_seek (w w' : WS) (bytes bits : Nat) (h : w.seek bytes bits = .ok w') :
+    w'.tell = (bytes, bits) := by
+  unfold WS.seek at h
+  simp only [bind, Except.bind] at h
+  cases hb : blockSeek w.rem (bitOffset bytes bits - bitOffset w.off w.next) with
+  | error e => rw [hb] at h; cases h
+  | ok r => rw [hb] at h; simp only [pure, Except.pure] at h; cases h; rfl
+
+/-- the bounded-block accounting of a seek is the same function in the writer and in the reader:
+    the reader's `seek` leaves `blockSeek` of its counter and of the distance moved -/
+theorem seek_accounting_shared (r r' : Reader) (bytes bits : Nat) (h : r.seek bytes bits = .ok r') :
+    blockSeek r.rem (((bytes * 8 + (7 - bits) : Nat) : Int) - r.pos) = .ok r'.rem := by
+  unfold Reader.seek at h
+  simp only at h
+  generalize ((bytes * 8 + (7 - bits) : Nat) : Int) - (r.pos : Int) = δ at h ⊢
+  unfold blockSeek
+  cases hr : r.rem with
+  | none => rw [hr] at h; simp only at h; cases h; simp [hr]
+  | some n =>
+    rw [hr] at h; simp only at h ⊢
+    by_cases h1 : δ > 0 ∧ n - δ < 0
+    · rw [if_pos h1] at h; cases h
+    · rw [if_neg h1] at h ⊢
+      by_cases h2 : n ≤ 0 ∧ δ = 0
+      · rw [if_pos h2] at h ⊢; cases h; simp [hr]
+      · rw [if_neg h2] at h ⊢
+        by_cases h3 : n < 0 ∧ δ < 0
+        · rw [if_pos h3] at h ⊢; cases h; rfl
+        · rw [if_neg h3] at h ⊢; cases h; rfl
+
+/-- inside a block with room left, seeking backwards gives the room back: the counter grows by the
+    distance (so bits may again be written where the block has not ended) -/
+theorem seek_back_inside_block (n delta : Int) (hn : 0 < n) (hd : delta < 0) :
+    blockSeek (some n) delta = .ok (some (n - delta)) := by
+  unfold blockSeek
+  have h1 : ¬ (delta > 0 ∧ n - delta < 0) := by omega
+  have h2 : ¬ (n ≤ 0 ∧ delta = 0) := by omega
+  have h3 : ¬ (n < 0 ∧ delta < 0) := by omega
+  simp [h1, h2, h3]
+
+example : (({} : WS).writeNbits 8 165 >>= fun w => w.writeUint 1 >>= fun w => w.seek 1 7 >>= fun w => w.writeUint 2).toOption.map
+    (fun w => (w.flush.file, w.tell)) = some ([165, 96], (1, 4)) := by decide
+
+end Seek
 
 end VC2.Props.C20
